@@ -45,6 +45,9 @@ FAMILY = [
     ("start: a NEWLINE\na: (&'q' 'q'* | ['y'] a 'x') | 'b'\n", None, None),
     # a positive lookahead in front of the recursive reference, inside a group
     ("start: a NEWLINE\na: (&'b' a) 'x' | 'b'\n", r"b( x)*", None),
+    # a left-recursive rule that can match the empty string: the first result consumes nothing and must still be the seed
+    ("start: a 'z' NEWLINE\na: a 'x' | 'y'? 'w'?\n", None, "start: a 'z' NEWLINE\na: ('y'? 'w'?) 'x'*\n"),
+    ("start: a 'z' NEWLINE\na: c 'x' | 'y'? 'w'?\nc: a\n", None, None),
 ]
 EXTRA = {"foo: bar": ["B C ; A C ; A\n", "B C ; A\n", "B K ; A C ; A K ; A\n", "D A\n", "D A C ; A\n"],
          "term: (expr": ["1 * 1 + 1\n", "1 + 1 * 1 + 1\n", "1 * 1 * 1\n", "1 + 1 * 1 * 1 + 1\n"],
